@@ -3,6 +3,7 @@ package main
 import (
 	"math/rand"
 	"os"
+	"regexp"
 	"strings"
 	"time"
 
@@ -244,6 +245,9 @@ var properties = map[string]*propDef{}
 
 func register(d *propDef) { properties[d.id] = d }
 
+// optTagged: the descriptor of a front-end case that carries a non-empty `optional` tag
+var optTagged = regexp.MustCompile(`"opt":"[^"]`)
+
 func contains(s string, subs ...string) bool {
 	for _, x := range subs {
 		if strings.Contains(s, x) {
@@ -276,6 +280,9 @@ func init() {
 				structCover("chain", fam.Chain, recBoth, false, 30, 500, 2, 1),
 				wideCover("chain", fam.Chain, recBoth, false, 250, 1),
 				structCover("shadow", fam.Shadow, rec, false, 30, 0, 2, 0),
+				// zero stands in only for what nobody can build: gaps below optional edges, with
+				// a shadowed provider further up
+				structCover("gaps", fam.Gaps, rec, false, 40, 0, 2, 0),
 			},
 			traces: stdTraces("core", medium, 0.05, stdOpts)})})
 
@@ -313,6 +320,8 @@ func init() {
 				structCover("groups", fam.Groups, rec, false, 15, 40, 2, 0),
 				wideCover("groups", fam.Groups, rec, false, 60, 0),
 				wideCover("reenter", fam.Reenter, rec, false, 40, 0),
+				// what stays outside the closure when an optional edge meets a gap
+				structCover("gaps", fam.Gaps, rec, false, 40, 0, 2, 0),
 			},
 			traces: stdTraces("lazy", medium, 0.06, stdOpts)})})
 
@@ -320,6 +329,10 @@ func init() {
 		projection: "verdict class of Invoke (missing versus ok), the reported missing keys, zero versus value for optional parameters, executions past a known gap",
 		kinds:      []string{"mk", "args.opt"},
 		extra: func(k, d string) bool {
+			// (front end) how an `optional` tag is read: every spelling of a boolean, nothing else
+			if strings.HasPrefix(k, "verdict.") && optTagged.MatchString(d) {
+				return true
+			}
 			return (k == "verdict.invoke" && contains(d, "missing", "want ok")) || (k == "exec.extra")
 		},
 		run: genericRun(stagePlan{
@@ -331,7 +344,8 @@ func init() {
 				// a gap far below an optional edge: behind a value group, behind a decorator
 				structCover("gaps", fam.Gaps, rec, false, 40, 0, 2, 0),
 			},
-			traces: stdTraces("missing", tweak(medium, func(f *fam.Features) { f.POpt = 0.4; f.Types = 6 }), 0.1, stdOpts)})})
+			traces: stdTraces("missing", tweak(medium, func(f *fam.Features) { f.POpt = 0.4; f.Types = 6 }), 0.1, stdOpts),
+			sig:    true})})
 
 	register(&propDef{id: "C05",
 		projection: "cycle verdicts of Provide and Invoke (three zones), IsCycleDetected, process survival, executions on a cycle",
